@@ -1,6 +1,7 @@
 package authz
 
 import (
+	"context"
 	"encoding/hex"
 	"fmt"
 	"os"
@@ -68,6 +69,7 @@ type hworld struct {
 	req  *sim.Client
 	oth  *sim.Client
 	prot *sim.Client // optional bystander (C06)
+	lastReply sim.Tx // the reply to the observed request, if any
 	cm   *chatRec
 	chat []byte
 }
@@ -432,7 +434,11 @@ func needsChat(t int, k string) bool {
 func (h *hworld) buildReq(t int, kvs string) ([]sim.F, error) {
 	kv, _, _ := strings.Cut(kvs, "@") // "@<state>" is about the requester, not the request
 	k, variant, _ := strings.Cut(kv, "/")
+	k = strings.TrimSuffix(k, "+xfer") // "+xfer": the granted transfer is also opened (runHandle)
 	f, err := h.baseReq(t, k, variant)
+	if err == nil && t == 213 && strings.Contains(kv, "+xfer") {
+		f = setField(f, sim.FFolderItemCount, sim.U16(0)) // the transfer that is opened carries no items
+	}
 	if err != nil || variant == "" {
 		return f, err
 	}
@@ -654,6 +660,15 @@ func (h *hworld) baseReq(t int, k, variant string) ([]sim.F, error) {
 			return []sim.F{path("Folder")}, true
 		case "root":
 			return nil, true
+		case "missingupload": // a folder that does not exist, named like an upload folder
+			if t == 213 {
+				return []sim.F{path("fresh uploads")}, true
+			}
+			return []sim.F{path("Uploads", "fresh uploads")}, true
+		case "missingdropbox":
+			return []sim.F{path("new drop box")}, true
+		case "missingnested": // missing folders, two levels, below an ordinary folder
+			return []sim.F{path("Folder", "deep", "er")}, true
 		}
 		return nil, false
 	}
@@ -873,6 +888,7 @@ func (h *hworld) observeRequest(ev map[string]any, typ int, fields []sim.F, wait
 			if nrep > 1 {
 				continue
 			}
+			h.lastReply = f
 			if f.Err != 0 {
 				reply = "err"
 			} else {
@@ -960,11 +976,117 @@ func runHandle(c map[string]any, ev map[string]any) error {
 		}
 	}
 	h.observeRequest(ev, t, fields, wait)
+	ev["xfer"] = "none"
+	if strings.HasSuffix(base, "+xfer") {
+		ev["xfer"] = h.openTransfer(t)
+	}
 	after, err := h.snapshot()
 	if err != nil {
 		return err
 	}
 	diffInto(ev, before, after)
+	// folders that appeared, and those of them that are not the folder a folder upload names (or below it)
+	newdirs, outdirs := []string{}, []string{}
+	was := map[string]bool{}
+	for _, e := range before.fs {
+		was[e.Path] = true
+	}
+	named := ""
+	if t == 213 {
+		named = uploadTarget(fields)
+	}
+	for _, e := range after.fs {
+		if e.Kind == "dir" && !was[e.Path] {
+			newdirs = append(newdirs, e.Path)
+			if named == "" || !(e.Path == named || strings.HasPrefix(e.Path, named+"/")) {
+				outdirs = append(outdirs, e.Path)
+			}
+		}
+	}
+	ev["newdirs"], ev["outdirs"] = newdirs, outdirs
 	ev["name"] = h.nameClass()
 	return nil
+}
+
+// uploadTarget is the path (relative to the file root) an upload request names: its path items and its name.
+func uploadTarget(fields []sim.F) string {
+	var parts []string
+	name := ""
+	for _, f := range fields {
+		switch f.ID {
+		case sim.FFilePath:
+			b := f.Data
+			if len(b) >= 2 {
+				n := sim.BE(b[0:2])
+				b = b[2:]
+				for i := 0; i < n && len(b) >= 3; i++ {
+					l := int(b[2])
+					if len(b) < 3+l {
+						break
+					}
+					parts = append(parts, string(b[3:3+l]))
+					b = b[3+l:]
+				}
+			}
+		case sim.FFileName:
+			name = string(f.Data)
+		}
+	}
+	return strings.Join(append(parts, name), "/")
+}
+
+// openTransfer opens the transfer connection for the reference number the reply granted (if any) and plays the
+// client's part: for a file upload a tiny well-formed flattened file object, for a folder upload nothing (the request
+// announced no items).  It returns how that went ("no-grant", "done", "error: ...", "timeout"); it waits, bounded,
+// until the server has finished with the transfer (the handler keeps the connection for 3 more seconds afterwards,
+// which is not waited for).
+func (h *hworld) openTransfer(t int) string {
+	ref, ok := h.lastReply.Get(sim.FRefNum)
+	if !ok || len(ref) != 4 || h.lastReply.Err != 0 {
+		return "no-grant"
+	}
+	var payload []byte
+	if t == 203 {
+		data := []byte("0123456789")
+		inf := infoFork("TEXT", "ttxt", "new.bin", "")
+		fork := func(tag string, n int) []byte {
+			b := append([]byte(tag), 0, 0, 0, 0, 0, 0, 0, 0)
+			return append(b, sim.U32(n)...)
+		}
+		payload = append([]byte("FILP"), 0, 1)
+		payload = append(payload, make([]byte, 16)...)
+		payload = append(payload, 0, 2)
+		payload = append(payload, fork("INFO", len(inf))...)
+		payload = append(payload, inf...)
+		payload = append(payload, fork("DATA", len(data))...)
+		payload = append(payload, data...)
+	}
+	pre := append([]byte("HTXF"), ref...)
+	pre = append(pre, sim.U32(len(payload))...)
+	pre = append(pre, 0, 0, 0, 0)
+	ce, se := sim.Pipe()
+	_, _ = ce.Write(append(pre, payload...))
+	done := make(chan error, 1)
+	go func() {
+		done <- h.w.Srv.VerifHandleFileTransfer(context.Background(), se, h.req.Addr)
+		se.Close()
+	}()
+	var id hotline.FileTransferID
+	copy(id[:], ref)
+	deadline := time.Now().Add(8 * time.Second)
+	for time.Now().Before(deadline) {
+		select {
+		case err := <-done:
+			if err != nil {
+				return "error: " + err.Error()
+			}
+			return "done"
+		default:
+		}
+		if h.w.Srv.FileTransferMgr.Get(id) == nil {
+			return "done" // the server has finished its work and released the reference number
+		}
+		time.Sleep(5 * time.Millisecond)
+	}
+	return "timeout"
 }
